@@ -38,6 +38,11 @@ fn main() {
     let maxsteps: u64 = get("maxsteps", "60000").parse().unwrap();
     let dbpoints = get("dbpoints", "1") == "1";
     let faults = get("faults", "0") == "1";
+    // panics=1: the database panics at one of the reads in-order execution performs
+    let panics = get("panics", "0") == "1";
+    if panics {
+        std::panic::set_hook(Box::new(|_| {}));
+    }
     // stop a sweep after this many failing cases (a hang costs real time per case)
     let maxfail: u64 = get("maxfail", "6").parse().unwrap();
     fs::create_dir_all(outdir).unwrap();
@@ -125,7 +130,14 @@ fn main() {
         let mut orc = oracle(&world.db, &block);
         let mut fault = None;
         let clean = orc.clone();
-        if faults {
+        if panics {
+            let reads: Vec<DbKey> = world.db.reads.lock().unwrap().clone();
+            if !reads.is_empty() {
+                let key = crng.pick(&reads).clone();
+                world.db.faults.lock().unwrap().insert(key.clone(), FaultMode::Panic);
+                fault = Some((key, FaultMode::Panic));
+            }
+        } else if faults {
             let reads: Vec<DbKey> = world.db.reads.lock().unwrap().clone();
             let (key, mode) = pick_fault(&mut crng, &world, &reads);
             world.db.faults.lock().unwrap().insert(key.clone(), mode);
